@@ -220,6 +220,7 @@ class Builder:
         self.view_mutated = set()   # nids of arrays mutated in place through a view (not modelled)
         self.mutations = []   # (kind, receiver Node, ast node, FuncInfo): in-place updates
         self.assign_log = []  # (FuncInfo, ast.Name target, Node) for every plain-name assignment
+        self.memo_calls = []  # (FuncInfo, call ast) of calls to memoised functions
         self.opaque = {}      # function fullname -> symbol name (result is a named dimensionless constant)
 
     # -- node construction ---------------------------------------------
@@ -1064,13 +1065,32 @@ class Builder:
         self.frame = fr
         self.stack.append(key)
         self.frames.append(fr)
+        memo = isinstance(node, ast.FunctionDef) and is_memoised(node)
+        if memo:
+            # functools.lru_cache / cache: on a cache hit the body does not run, so none of its
+            # effects (writes to module globals, attributes) happen; the state after the call is
+            # phi(miss?, state after the body, state before the call).
+            saved_locals = saved.locals if saved is not None else None
+            pre = (dict(saved_locals) if saved_locals is not None else {},
+                   {k: dict(v) for k, v in self.heap.items()}, dict(self.gvars))
         try:
             if isinstance(node, ast.Lambda):
                 return self.eval(node.body)
             out = self.exec_block(node.body)
             if out == 'fall':
                 fr.returns.append((tuple(fr.conds), self.const(None)))
-            return self.join_returns(fr, at)
+            ret = self.join_returns(fr, at)
+            if memo:
+                miss = self.mk('call', 'cache-miss', args=list(args), at=at)
+                post = (pre[0], {k: dict(v) for k, v in self.heap.items()}, dict(self.gvars))
+                keep = self.frame
+                self.frame = fr          # merge() writes frame locals: use the dying frame
+                try:
+                    self.merge(miss, post, pre)
+                finally:
+                    self.frame = keep
+                self.memo_calls.append((clo.func, at))
+            return ret
         finally:
             self.stack.pop()
             self.frames.pop()
@@ -1173,6 +1193,20 @@ class Builder:
             self.assign_log.append((f.func, t, v))
             if t.id in f.globals_decl:
                 self.gvars[(f.module.name, t.id)] = v
+            elif rebinding and t.id not in f.locals:
+                # in-place update (x[k] = .., x.append(..)) of an object reached through an
+                # enclosing scope or a module global: the shared object itself changes
+                fr = f.parent
+                while fr is not None:
+                    if t.id in fr.locals:
+                        fr.locals[t.id] = v
+                        return
+                    fr = fr.parent
+                r = self.model.resolve(f.module, t.id)
+                if r is not None and r[0] == 'var':
+                    self.gvars[(r[1].name, r[2])] = v
+                else:
+                    f.locals[t.id] = v
             else:
                 f.locals[t.id] = v
         elif isinstance(t, (ast.Tuple, ast.List)):
@@ -1554,6 +1588,16 @@ class Builder:
             clo = Closure(runm, runm.node, None, self_node=objn, cls=runm.cls, module=runm.module)
             res = self.call_closure(clo, [r, t], {}, runm.node)
         return objn, res
+
+
+def is_memoised(fdef):
+    """Decorated with functools.lru_cache / functools.cache (with or without arguments)."""
+    for d in fdef.decorator_list:
+        f = d.func if isinstance(d, ast.Call) else d
+        name = f.attr if isinstance(f, ast.Attribute) else (f.id if isinstance(f, ast.Name) else '')
+        if name in ('lru_cache', 'cache', 'cached_property', 'memoize', 'memoized', 'memoise'):
+            return True
+    return False
 
 
 def same_cond(a, b, depth=0):
